@@ -33,6 +33,14 @@ func init() {
 		Assumptions: []string{"go/ast's field types describe where identifiers can occur", "*ast.BasicLit, *ast.CommentGroup and token positions cannot contain identifiers"},
 		Run:         runC07,
 		Mutants: []Mutant{
+			{Name: "method-expression-path-not-marked", File: "unused/unused.go", Rule: "R7.7", KeyPart: "readSelectorExpr::implicit-selection-path-marked",
+				Old: "\tg.readSelection(tsel, by)\n}\n", New: "\tif tsel.Kind() != types.MethodExpr {\n\t\tg.readSelection(tsel, by)\n\t}\n}\n"},
+			{Name: "embedded-path-fields-not-used", File: "unused/unused.go", Rule: "R7.7", KeyPart: "readSelection::every-embedded-field-on-the-path-used",
+				Old: "\t\tg.use(field, by)\n\t\tbase = field.Type()\n", New: "\t\tbase = field.Type()\n"},
+			{Name: "embedded-path-exported-fields-skipped", File: "unused/unused.go", Rule: "R7.7", KeyPart: "readSelection::every-embedded-field-on-the-path-used",
+				Old: "\t\tg.use(field, by)\n\t\tbase = field.Type()\n", New: "\t\tif !field.Exported() {\n\t\t\tg.use(field, by)\n\t\t}\n\t\tbase = field.Type()\n"},
+			{Name: "selected-object-not-used", File: "unused/unused.go", Rule: "R7.7", KeyPart: "readSelection::selected-object-used",
+				Old: "\n\tg.use(sel.Obj(), by)\n}\n", New: "\n\tif sel.Kind() == types.FieldVal {\n\t\tg.use(sel.Obj(), by)\n\t}\n}\n"},
 			{Name: "embedded-generic-args-dropped", File: "unused/unused.go", Rule: "R7.1", KeyPart: "embeddedField/*ast.IndexListExpr.Indices",
 				Old: "\t\t\tnode = node_.X\n\t\t\tfor _, index := range node_.Indices {\n\t\t\t\tnodes = append(nodes, index)\n\t\t\t}\n", New: "\t\t\tnode = node_.X\n"},
 			{Name: "local-types-not-in-namedTypes", File: "unused/unused.go", Rule: "R7.5", KeyPart: "every-defined-type-in-namedTypes",
@@ -861,4 +869,153 @@ func runC07(c *Ctx) {
 			c.Undecided("found %d per-name loops over ValueSpec.Names in (*graph).decl, expected the const and the var case", n)
 		}
 	})
+	// R7.7: implicit uses recorded by the type checker are consumed. A selector
+	// x.f / T.m that reaches f or m through embedded fields uses every field
+	// on that path although none of them is written in the source; go/types
+	// records the path in Info.Selections. Whenever the walker finds such a
+	// record it must hand it to the function that marks the path (on every
+	// path — no kind of selection may be skipped: a method expression T.m
+	// exists only because of the embedded fields it is promoted through), and
+	// that function must mark every field of the path and the selected object.
+	c.Rule("R7.7", func() {
+		c.Floor("R7.7", 3)
+		useName := Module + "/unused.graph.use"
+		var ufuncs []*ssa.Function
+		for _, fn := range c.ModuleFuncs() {
+			if FuncPkgPath(fn) == Module+"/unused" && len(fn.Blocks) > 0 {
+				ufuncs = append(ufuncs, fn)
+			}
+		}
+		isRet := func(in ssa.Instruction) bool { _, ok := in.(*ssa.Return); return ok }
+		// functions that mark a selection: they receive a *types.Selection and call g.use
+		marksSel := map[*ssa.Function]int{} // function -> index of the selection parameter
+		for _, fn := range ufuncs {
+			for i, prm := range fn.Params {
+				if strings.HasSuffix(prm.Type().String(), "go/types.Selection") && len(CallsTo(fn, false, useName)) > 0 {
+					marksSel[fn] = i
+				}
+			}
+		}
+		if len(marksSel) == 0 {
+			c.Undecided("no function of package unused receives a *types.Selection and calls (*graph).use")
+		}
+		nLookups := 0
+		for _, fn := range ufuncs {
+			Instrs(fn, false, func(in ssa.Instruction) {
+				lk, ok := in.(*ssa.Lookup)
+				if !ok || !DerivesLocal(lk.X, IsFieldOf("types.Info", "Selections")) {
+					return
+				}
+				nLookups++
+				// the record found, and the edges on which nothing was found
+				var val ssa.Value = lk
+				miss := map[Edge]bool{}
+				if lk.CommaOk {
+					val = nil
+					if refs := lk.Referrers(); refs != nil {
+						for _, r := range *refs {
+							if ex, ok := r.(*ssa.Extract); ok && ex.Index == 0 {
+								val = ex
+							}
+						}
+					}
+					miss = ComplementEdges(CondEdges(fn, func(cond ssa.Value) (bool, bool) {
+						ex, ok := cond.(*ssa.Extract)
+						return ok && ex.Tuple == ssa.Value(lk) && ex.Index == 1, true
+					}))
+				} else {
+					miss = EqEdges(fn, func(x, y ssa.Value) bool { return x == ssa.Value(lk) && IsNilConst(y) })
+				}
+				isMark := func(x ssa.Instruction) bool {
+					ci, ok := x.(ssa.CallInstruction)
+					if !ok || val == nil {
+						return false
+					}
+					callee := ci.Common().StaticCallee()
+					idx, marks := marksSel[callee]
+					if !marks {
+						return false
+					}
+					args := ci.Common().Args
+					return idx < len(args) && Derives(args[idx], func(v ssa.Value) bool { return v == val })
+				}
+				t, path := PathAvoiding(fn, lk, isRet, isMark, miss)
+				c.Check(FuncKey(fn)+"::implicit-selection-path-marked#"+itoa(nLookups), lk.Pos(), val != nil && t == nil,
+					"a record found in Info.Selections must be handed to the function that marks the embedded-field path and the selected object on every path (only 'no record' may skip it): x.f, x.m and T.m alike exist only through the embedded fields on the path; path without marking: %s", PathString(fn, path))
+			})
+		}
+		if nLookups == 0 {
+			c.Undecided("package unused no longer consults Info.Selections")
+		}
+		for _, fn := range SortedFuncs(marksSel) {
+			prm := fn.Params[marksSel[fn]]
+			fromSel := func(method string) func(ssa.Value) bool {
+				return func(v ssa.Value) bool {
+					call, ok := v.(*ssa.Call)
+					return ok && strings.HasSuffix(CalleeName(&call.Call), "go/types.Selection."+method) && len(call.Call.Args) > 0 && call.Call.Args[0] == ssa.Value(prm)
+				}
+			}
+			// the selected object is used on every path
+			var objUses, fieldUses []ssa.Instruction
+			for _, ci := range CallsTo(fn, false, useName) {
+				args := ci.Common().Args
+				if len(args) < 2 {
+					continue
+				}
+				if Derives(args[1], fromSel("Obj")) {
+					objUses = append(objUses, ci)
+				}
+				if Derives(args[1], func(v ssa.Value) bool {
+					call, ok := v.(*ssa.Call)
+					return ok && strings.HasSuffix(CalleeName(&call.Call), "go/types.Struct.Field")
+				}) {
+					fieldUses = append(fieldUses, ci)
+				}
+			}
+			isOneOf := func(list []ssa.Instruction) func(ssa.Instruction) bool {
+				return func(in ssa.Instruction) bool {
+					for _, x := range list {
+						if x == in {
+							return true
+						}
+					}
+					return false
+				}
+			}
+			t, path := PathAvoiding(fn, nil, isRet, isOneOf(objUses), nil)
+			c.Check(FuncKey(fn)+"::selected-object-used", fn.Pos(), len(objUses) > 0 && t == nil, "the selected field or method (sel.Obj()) is marked used on every path; path without: %s", PathString(fn, path))
+			// every step of the index path is used: from the load of a path element, every way back to the loop head or out passes g.use(field)
+			var elems []*ssa.UnOp
+			Instrs(fn, false, func(in ssa.Instruction) {
+				u, ok := in.(*ssa.UnOp)
+				if !ok || u.Op != token.MUL {
+					return
+				}
+				if ia, ok := u.X.(*ssa.IndexAddr); ok && Derives(ia.X, fromSel("Index")) {
+					elems = append(elems, u)
+				}
+			})
+			okSteps := len(elems) > 0 && len(fieldUses) > 0
+			why := "no loop over sel.Index() that marks the fields"
+			for _, e := range elems {
+				t, path := PathAvoiding(fn, e, func(in ssa.Instruction) bool { return isRet(in) || in == ssa.Instruction(e) }, isOneOf(fieldUses), nil)
+				if t != nil {
+					okSteps = false
+					why = "a step of the path is not marked: " + PathString(fn, path)
+				}
+			}
+			// all steps but the last: the list that is iterated is sel.Index() cut by one at the end (or a loop bound len-1)
+			c.Check(FuncKey(fn)+"::every-embedded-field-on-the-path-used", fn.Pos(), okSteps, "every embedded field on the implicit path (sel.Index() without its last element) is marked used: %s", why)
+		}
+	})
+}
+
+// SortedFuncs returns the keys of m ordered by name.
+func SortedFuncs[V any](m map[*ssa.Function]V) []*ssa.Function {
+	var out []*ssa.Function
+	for fn := range m {
+		out = append(out, fn)
+	}
+	sort.Slice(out, func(i, j int) bool { return out[i].String() < out[j].String() })
+	return out
 }
